@@ -40,6 +40,7 @@ structure Tables where
   nullVarUsesDefault : Bool
   argsInPlace : Bool
   argsSortedOnce : Bool
+  condByIdentity : Bool
   reflectOptionalRefused : Bool
   eventVarsEmpty : Bool
   symbolBaseEnum : Bool
